@@ -74,6 +74,25 @@ def handle (st : DState) (line : String) : DState × String :=
           | _ => (st, "bad-op")
         | none => (st, "bad-op")
       | _ => (st, "bad-op")
+    | "pydict" =>
+      -- the dict semantics used by the source translator (insertion order, overwrite in place, update, comprehension)
+      let parsePairs (kvs : String) : Option (List (String × Py.DV)) :=
+        if kvs == "" then some [] else
+        (kvs.splitOn ",").mapM (fun kv => match kv.splitOn "=" with
+          | [k, v] => v.toInt?.map (fun i => (k, Py.DV.int i))
+          | _ => none)
+      let step (d : Option Py.PyDict) (tok : String) : Option Py.PyDict :=
+        match d with
+        | none => none
+        | some d =>
+          match tok.splitOn ":" with
+          | ["set", k, v] => v.toInt?.map (fun i => Py.dset d k (.int i))
+          | ["upd", kvs] => (parsePairs kvs).map (fun ps => Py.dupdate d ps)
+          | ["from", kvs] => (parsePairs kvs).map (fun ps => Py.dfromPairs ps)
+          | _ => none
+      match args.foldl step (some []) with
+      | some d => (st, ",".intercalate (d.map fun p => p.1 ++ "=" ++ (match p.2 with | .int i => toString i | _ => "?")))
+      | none => (st, "bad-op")
     | "wf" => match parseInts args with
       | some xs => (st, if wellFormed xs then "1" else "0")
       | none => (st, "bad-op")
